@@ -45,6 +45,8 @@ def render_item(it, gapdir=None):
         return '%s %s, %s, %s' % (m, reg(a), reg(b), t)
     if k == 'jalk':
         return 'jal %s, %s' % (reg(a), t)
+    if k == 'pjk':
+        return '%s %s' % (m, t)
     if k == 'ins':
         sig = enc.SIG[m]
         ops = [a, b, c][:len(sig)]
@@ -127,7 +129,7 @@ def rle(data):
     return out
 
 
-INSTR_KINDS = {'ins', 'pins', 'br', 'jal', 'pbr', 'pj', 'li', 'lil', 'imml', 'brk', 'jalk'}
+INSTR_KINDS = {'ins', 'pins', 'br', 'jal', 'pbr', 'pj', 'li', 'lil', 'imml', 'brk', 'jalk', 'pjk'}
 
 
 def observe(prog, src, compress):
